@@ -10,7 +10,7 @@ from harness.core import run_tlc, require_clean, MachineryError
 from harness.graph import Graph, Walker
 from harness import systems
 from harness.props import c16_snapshot as c16
-from harness.props.c06_history import call_variant, flatten
+from harness.props.c06_history import call_variant, flatten, scribble
 
 FNS = {'pair_correlation': '-', 'structure_factor': 'normalize=True', 'second_virial': 'extrapolate=True', 'chi': 'extrapolate=True',
        'spinodal_condition': 'extrapolate=True', 'solvation_potential': 'closure=HNC', 'pmf': '-'}
@@ -80,7 +80,9 @@ class LifeAdapter(c16.SysAdapter):
                         res = w['results'][l['n'] - 1]
                         if res is None or not res.success:
                             return {'_skip': True}
-                        obs['ret'] = flatten(call_variant(p, l['fn'], FNS[l['fn']]), list(c16.T))
+                        got = call_variant(p, l['fn'], FNS[l['fn']])
+                        obs['ret'] = flatten(got, list(c16.T))
+                        scribble(got)                  # the returned object is the caller's to overwrite (PostProc.tla)
                         obs['ref'] = self.reference(l['result'][1], l['fn'], near=res.x)
                         if obs['ref'] is None:
                             return {'_skip': True}
